@@ -224,6 +224,19 @@ class SymPrinter:
                 if pc2 is not None:
                     res.append((1 if truth else 0, pc2))
             return res
+        if v[0] == "S" and v[2] in ("u8", "u16", "u32", "u64", "usize", "i8", "i16", "i32", "i64", "isize", "char"):
+            # `match x { 31 => .., _ => .. }` on a symbolic integer: one branch per listed value, one for the rest
+            res = []
+            rest = pc
+            for x in explicit_values:
+                pc2 = self.assume(pc, ("cmp", "Eq", self.key(v), C(x)), True)
+                if pc2 is not None:
+                    res.append((x, pc2))
+                rest = self.assume(rest, ("cmp", "Eq", self.key(v), C(x)), False) if rest is not None else None
+            if rest is not None:
+                other = max(explicit_values) + 1 if explicit_values else 0
+                res.append((other, rest))
+            return res
         if v[0] == "pending-discr":
             sv = v[1]
             ty = sv[2]
@@ -688,6 +701,10 @@ class SymPrinter:
             elif (x[0] == "none") != (y[0] == "none") and x[0] in ("some", "none") and y[0] in ("some", "none"):
                 return one(C(neg))
             atom = ("cmp", "Eq", self.key(x), self.key(y))
+            # comparison with a variant constant is the same fact as a `match` on that variant
+            for u, w in ((x, y), (y, x)):
+                if u[0] == "S" and w[0] == "C" and isinstance(w[1], tuple) and w[1] and w[1][0] == "variant":
+                    atom = ("is", u[1], w[1][2])
             return self.fork_atom(env, out, pc, atom, C(not neg), C(neg))
         if decl in ("core::cmp::PartialOrd::lt", "core::cmp::PartialOrd::le", "core::cmp::PartialOrd::gt", "core::cmp::PartialOrd::ge"):
             op = {"lt": "Lt", "le": "Le", "gt": "Gt", "ge": "Ge"}[decl.split("::")[-1]]
@@ -842,6 +859,32 @@ class SymPrinter:
             return one(("iterc", tuple(items)))
         if decl == "core::iter::traits::iterator::Iterator::chain" and a0[0] == "iterc" and args[1][0] == "iterc":
             return one(("iterc", a0[1] + args[1][1]))
+        if decl == "core::iter::traits::iterator::Iterator::zip":
+            b0 = args[1]
+            if b0[0] == "S" and (b0[2].startswith("[") or b0[2].startswith("alloc::vec::Vec<")):
+                bb_, bo_ = self.slice_base(b0[1])
+                b0 = ("symiter", bb_, bo_, self.elem_ty(b0[2]))
+            if a0[0] == "symiter" and b0[0] == "symiter" and a0[1] == b0[1]:
+                # two cursors over the same list (`xs.iter().zip(&xs[1..])`): pairs (xs[i], xs[i + d])
+                return one(("symzip", a0[1], a0[2], b0[2], a0[3]))
+            raise Unmodelled("zip of unrelated sequences")
+        if decl == "core::iter::traits::iterator::Iterator::next" and a0[0] == "symzip":
+            _, base, i, j, ety = a0
+            ref = raw[0]
+            far = max(i, j)
+            res = []
+            if far < 2:
+                pc2 = self.assume(pc, ("len>", base, far), True)
+                if pc2 is not None:
+                    res.append((SOME(("tup", (S(("elem", base, i), ety), S(("elem", base, j), ety)))), set_ref(ref, ("symzip", base, i + 1, j + 1, ety)), out, pc2))
+                pc3 = self.assume(pc, ("len>", base, far), False)
+                if pc3 is not None:
+                    res.append((NONE, env, out, pc3))
+            else:
+                res.append((NONE, env, out, pc))  # lists longer than 2 are represented by length 2
+            return res
+        if decl == "core::iter::traits::collect::IntoIterator::into_iter" and a0[0] == "symzip":
+            return one(a0)
         if decl == "core::iter::traits::iterator::Iterator::next":
             ref = raw[0]
             it = a0
@@ -881,6 +924,11 @@ class SymPrinter:
             return one(S(("app", "join", a0[1], args[1][1] if args[1][0] == "C" else "?"), "alloc::string::String"))
         if name == "core::hint::must_use":
             return one(a0)
+        m_ = re.fullmatch(r"<(\w+) as core::default::Default>::default", name)
+        if m_ and m_.group(1) in ("i8", "i16", "i32", "i64", "isize", "u8", "u16", "u32", "u64", "usize"):
+            return one(C(0))
+        if m_ and m_.group(1) == "bool":
+            return one(C(False))
         raise Unmodelled("library call %s" % name)
 
     def apply(self, f, args, out, pc, depth):
